@@ -16,6 +16,8 @@ SIGS = {"tree": b"TREE", "end_of_index_entry": b"EOIE", "sparse": b"sdir", "link
 
 def run(db, chk):
     storage_flags_rule(db, chk)
+    count_what_was_written(db, chk)
+    tree_cache_vs_removed_entries(db, chk)
     w = db.one(r"^gix_index::entry::write::<impl gix_index::Entry>::write_to$")
     r = db.one(r"^gix_index::decode::entries::load_one$")
     wseq = [x for x in ixf.writer_sequence(w)]
@@ -152,3 +154,55 @@ def storage_flags_rule(db, chk):
     chk.ob("storage-keeps-on-disk-flags", "Flags::to_storage", (got & on_disk) == on_disk and (got & path_len) == 0,
            "to_storage keeps bits %#06x of the 16-bit field; the on-disk flag bits are %#06x (stage %#x, EXTENDED %#x, ASSUME_VALID %#x) and the path length %#06x must be cleared"
            % (got, on_disk, rest.get("STAGE_MASK", 0), rest.get("EXTENDED", 0), rest.get("ASSUME_VALID", 0), path_len), "%s:%d" % (f.file, f.line), key="storage-flags|to_storage")
+
+
+def count_what_was_written(db, chk):
+    """every offset of the written file (entry padding `(count - header) % 8`, the end-of-index-entry offset, extension sizes) comes from
+    CountBytes::count.  io::Write::write may accept only part of the buffer and write_all offers the rest again, so the counter has to grow by
+    what the inner writer RETURNED: the value stored into `.count` derives from the result of `self.inner.write(..)` and not from the buffer,
+    the store lies on the success edge of that call, and the same count is what write() returns."""
+    f = db.one(r"^<gix_index::write::util::CountBytes<T> as std::io::Write>::write$")
+    fl = Flow(f)
+    inner = [c for c in f.calls() if c.is_(r"^std::io::Write::write$") and any(r[0] == "arg" and r[1] == 1 for r in fl.roots(c.args[0], stop_named=False))]
+    chk.floor("CountBytes::write: inner.write call", len(inner), 1)
+    stores = [(bi, rv, ln) for bi, si, pl, rv, ln, mc in f.assigns() if pl and pl[-1] == ".count" and pl[0] == 1]
+    chk.floor("CountBytes::write: store into count", len(stores), 1)
+    good = set()
+    for c in inner:
+        good |= fl.result_edges(c)["good"]
+    for bi, rv, ln in stores:
+        op = rv[1] if rv[0] == "use" else rv[2] if rv[0] in ("cast", "bin") else None
+        r = fl.roots(op, stop_named=False, stop_calls=r"io::Write::write$") if isinstance(op, dict) else set()
+        from_written = any(x[0] == "call" and x[1] == "std::io::Write::write" for x in r)
+        from_buf = any(x[0] == "arg" and x[1] == 2 for x in r)
+        after = bool(good) and fl.cut_off([bi], good)
+        chk.ob("count-what-was-written", "CountBytes::write count@%d" % ln, from_written and not from_buf and after,
+               "the byte counter grows by %s%s: after a short write the rest of the buffer is counted twice, padding and the end-of-index offset no longer match the file" % (
+                   "the buffer length" if from_buf else "a value that is not the inner writer's result", "" if after else " before the inner write succeeded"),
+               "%s:%d" % (f.file, ln), key="count-written|CountBytes::write")
+
+
+def tree_cache_vs_removed_entries(db, chk):
+    """State::write_to leaves out entries flagged REMOVE.  The TREE extension (cache tree) it carries was computed WITH them, and git trusts it:
+    `git write-tree` / the next commit would use the stale tree id.  So whatever decides to write the TREE extension has to look at the REMOVE
+    flag: the closure family (of write_extensions) that reaches extension::Tree::write_to contains a Flags::contains test against Flags::REMOVE
+    (or the tree is invalidated instead - a call of a cache-tree invalidation on State is accepted as well)."""
+    fam_all = [f for f in db.by_crate["gix_index"] if f.kind != "promoted" and re.search(r"State>::write_extensions(::|$)|State>::write_to(::|$)", f.name)]
+    writers = [f for f in fam_all if f.calls_to(r"extension::Tree>?::write_to$|extension::tree::write::.*write_to$")]
+    chk.floor("write_extensions: closure that writes the TREE extension", len(writers), 1)
+    for w in writers:
+        # the top-level closure of write_extensions this writer is nested in
+        m = re.match(r"^(.*State>::write_(?:extensions|to)::\{closure#\d+\})", w.name)
+        top = m.group(1) if m else w.name
+        fam = [f for f in fam_all if f.name.startswith(top)]
+        tests = 0
+        for f in fam:
+            fl = Flow(f)
+            for c in f.calls():
+                if c.is_(r"Flags>?::(contains|intersects)$") and any(r[0] == "constdef" and r[1].endswith("Flags::REMOVE") for a in c.args for r in fl.roots(a, stop_named=False)):
+                    tests += 1
+                if c.is_(r"::remove_tree$|::invalidate|tree_mut$"):
+                    tests += 1
+        chk.ob("tree-cache-not-written-over-removed-entries", "%s (%d function(s) in its closure family)" % (top.split("State>::")[-1], len(fam)), tests > 0,
+               "the TREE extension is written without looking at Flags::REMOVE: entries are dropped from the file but the cache tree still contains them, and git write-tree returns the stale tree",
+               "%s:%d" % (w.file, w.line), key="tree-vs-removed|write_extensions")
